@@ -43,8 +43,9 @@ ASSUMPTIONS = [
     "the models are ASCII-exact; inputs containing U+017F, U+212A, U+0130, U+0131 (folded onto s/k/i by re.IGNORECASE), digit runs "
     "beyond CPython's 4300-digit int limit, U+0001 (operand separator of the driver protocol) and `platform_release` literals outside "
     "PEP 440 (model outcome `unmodelled`) are run on the real code only and counted as model-skipped",
-    "PEP 508 requirements and dependencies are covered by the real-code oracle only (no driver op for Model/Requirement.lean / Model/Dep.lean yet); "
-    "Factory.validate / validate_object are correspondence-only (no Lean model; fastjsonschema trusted)",
+    "PEP 508 requirements and dependencies: correspondence with Model/Requirement.lean / Model/Dep.lean (ops reqparse, dep508) on accept/reject, error "
+    "class and structure; URLs outside the modelled urllib fragment, file/directory dependencies (file-system probes) and markers beyond 10 leaves are "
+    "real-code only (counted as model-skipped); Factory.validate / validate_object are correspondence-only (no Lean model; fastjsonschema trusted)",
     "fastjsonschema.compile is memoised per schema text by the harness (pure function; poetry-core recompiles both schemas on every validate call)",
     "a time-out is 5 s of process CPU time (ITIMER_PROF) observed on two runs of the same input; dependency parsing runs with an empty "
     "temporary directory as cwd",
@@ -161,6 +162,13 @@ def _dump(target: str, v: Any) -> str:
         return V.dump(v)
     if target in ("marker", "mraw"):
         return MC.mdump(v)
+    if target == "requirement":
+        opt = lambda x: "-" if x is None else "=" + str(x)  # noqa: E731
+        return "|".join([v.name, ",".join(v.extras), v.pretty_constraint, V.dump(v.constraint), opt(v.url),
+                         "-" if v.marker is None else "=" + MC.mdump(v.marker)])
+    if target == "dependency":
+        from . import c10
+        return "|".join([c10.spec_dump(v), c10.kind_dump(v), V.dump(v.constraint), v._pretty_constraint, MC.mdump(v.marker)])
     return ""
 
 
@@ -225,7 +233,7 @@ def _short(s: str) -> str:
 # ----------------------------------------------------------------------------------------------------------------
 
 MODEL_OPS = {"version": "vparse", "vconstraint": "cparse", "mvconstraint": "cmparse", "generic": "gparse", "extra": "xparse",
-             "mraw": "mraw", "marker": "mparse"}
+             "mraw": "mraw", "marker": "mparse", "requirement": "reqparse", "dependency": "dep508"}
 
 
 def model_skip(target: str, s: str) -> str:
@@ -238,6 +246,8 @@ def model_skip(target: str, s: str) -> str:
     if not core.valid_utf8(s):
         return "surrogate"
     if target == "marker" and (len(s) > 1500 or GF.gen_marker.count_leaves(s) > 10):
+        return "marker-simplifier-size"
+    if target in ("requirement", "dependency") and ";" in s and (len(s) > 1500 or GF.gen_marker.count_leaves(s.split(";", 1)[1]) > 10):
         return "marker-simplifier-size"
     if len(s) > 12000:
         return "length"
@@ -258,11 +268,21 @@ def model_view(target: str, m: list[str]) -> list[str]:
         return ["err", m[1] if len(m) > 1 else m[0]]
     if target == "marker":
         return ["ok", m[2], ""] if m[0] == "ok" else ["err", m[1] if len(m) > 1 else m[0]]
+    if target == "requirement":
+        # name, extras, constraint text, constraint dump, url, marker dump
+        return ["ok", "", "|".join(m[1:7])] if m[0] == "ok" else ["err", m[1] if len(m) > 1 else m[0]]
+    if target == "dependency":
+        # text = to_pep_508(); dump = spec, kind, constraint dump, pretty constraint, marker dump
+        return ["ok", m[9], "|".join(m[1:6])] if m[0] == "ok" else ["err", m[1] if len(m) > 1 else m[0]]
     return ["err", "?"]
 
 
 def impl_view(target: str, o: dict[str, Any]) -> list[str]:
     if o["cls"] == "ok":
+        if target == "requirement":
+            return ["ok", "", o["dump"]]
+        if target == "dependency":
+            return ["ok", "=" + o["text"], o["dump"]]
         return ["ok", o["text"], o["dump"] if target in ("version", "vconstraint", "mvconstraint", "mraw") else ""]
     if o["cls"] == "doc":
         return ["err", o["err"]]
@@ -342,6 +362,9 @@ def run_cases(grammar: str, cases: list[tuple[str, str]], want_model: bool = Tru
                     # resource exhaustion of the interpreter (the oracle above judges it); the model has no stack limit
                     cnt(f"{t}:model-skipped:impl-{iv[1]}")
                     continue
+                if t == "dependency" and mv[0] == "ok" and mv[1] == "!unmodelled":
+                    cnt(f"{t}:model-skipped:print-unmodelled")
+                    mv = [mv[0], iv[1], mv[2]]
                 if mv != iv:
                     dis += 1
                     if len(res["disagreements"]) < 40:
@@ -728,7 +751,7 @@ def correspondence(ctx: core.Ctx) -> None:
     # 2. the fuzz streams
     _run_stream(ctx, ctx.budget(40000, 2000000), ctx.budget(1500, 40000), ctx.budget(2400, 24000), raw, regex=True)
     _finish(ctx, raw)
-    ctx.notes.append("requirement/dependency: real-code oracle only; validate: correspondence-only (no Lean model)")
+    ctx.notes.append("validate: correspondence-only (no Lean model)")
 
 
 def search(ctx: core.Ctx) -> None:
@@ -775,7 +798,7 @@ def replay(ctx: core.Ctx, payload: dict[str, Any]) -> bool:
 def extra_evidence(ctx: core.Ctx) -> dict[str, Any]:
     skipped = {k: v for k, v in ctx.dist.items() if ":model-skipped:" in k}
     return {"model_skipped": skipped, "notes": ctx.notes, "alarm_cpu_seconds": ALARM_S,
-            "modelled_parsers": sorted(MODEL_OPS), "oracle_only": ["requirement", "dependency", "validate"]}
+            "modelled_parsers": sorted(MODEL_OPS), "oracle_only": ["validate"]}
 
 
 # ----------------------------------------------------------------------------------------------------------------
